@@ -71,6 +71,35 @@ Theorem C13_trace_recv_emitted : forall tr a, accept tr = inl a ->
 Proof. exact accept_recv_emitted. Qed.
 Print Assumptions C13_trace_recv_emitted.
 
+(* across Close and for control segments: a recorded session  pre ++ post  (post = the datagrams emitted after an
+   application or mieru itself started closing: close request / response, queued data, retransmissions) that the
+   acceptor accepts never shows one sequence number with two contents - type, fragment marker or payload - on
+   either endpoint; a data fragment and a close request sharing a number are rejected *)
+Theorem C13_trace_retx_same_across_close : forall pre post, accept_closed pre post = true ->
+  forall X g1 g2, In g1 (emitted X (pre ++ post)) -> In g2 (emitted X (pre ++ post)) ->
+  is_seq X (g_ty g1) = true -> is_seq X (g_ty g2) = true -> g_seq g1 = g_seq g2 ->
+  g_ty g1 = g_ty g2 /\ g_frag g1 = g_frag g2 /\ g_pay g1 = g_pay g2.
+Proof. exact accept_closed_retx_same. Qed.
+Print Assumptions C13_trace_retx_same_across_close.
+
+(* in the transition system a control segment (the close session request, c_ty c = closeSessionRequest, like any
+   LWrite) is numbered in the very step that queues it: its number is the length of the history, no segment
+   carries that number yet, and afterwards every transmission of that number carries exactly it *)
+Theorem C13_control_numbering : forall s c s', reach s -> lstep s (LWrite c) s' ->
+  nth_error (assigned s') (length (assigned s)) = Some c /\
+  nth_error (assigned s) (length (assigned s)) = None /\
+  (forall i c0, In (i, c0) (fwd s') -> i < length (assigned s)) /\
+  (forall s2 c2, reach s2 -> nth_error (assigned s2) (length (assigned s)) = Some c ->
+                 In (length (assigned s), c2) (fwd s2) -> c2 = c).
+Proof. exact close_request_numbering. Qed.
+Print Assumptions C13_control_numbering.
+
+Example C13_closed_nonvacuous :
+  accept_closed ex_pre [ES false (mkDg 6 1 0 4096 0 [7]%N); ES false (mkDg 4 2 0 0 0 []); ES true (mkDg 5 1 0 0 0 []); ES true (mkDg 4 2 0 0 0 [])] = true /\
+  accept_closed ex_pre [ES false (mkDg 4 1 0 0 0 [])] = false /\
+  accept_closed ex_pre [ES false (mkDg 6 2 0 4096 0 [8]%N); ES false (mkDg 4 2 0 0 0 [])] = false.
+Proof. exact ex_closed. Qed.
+
 Example C13_trace_nonvacuous : accepts (ex_trace ++ [EF]) = true /\
   accept [ES false (mkDg 8 0 1 0 0 [])] = inr (0%N, rj_ack) /\
   accept [EW false [1;2]%N; ES false (mkDg 2 0 0 0 0 [1;2]%N); ES false (mkDg 2 0 0 0 0 [2]%N)] = inr (2%N, rj_retx) /\
